@@ -9,26 +9,29 @@ ODO = [("QuartzModel.Proofs.Odometer", t) for t in ["Odo.findForward_spec", "Odo
 # the dispatch step and the API calls are atomic with respect to each other because of the queue lock: its facts are obligations
 # of every property that reasons with atomic steps
 SCHEDFACTS = [("QuartzModel.Theorems.SchedFacts", "Sched." + t) for t in ["validate_branches", "misfire_offer_nonblocking", "step_order", "classify_spec"]] + \
-             [("QuartzModel.Theorems.C09Lin", "Sched.C09_lock_facts"), ("QuartzModel.Theorems.C09Lin", "Sched.C09_unlocked_are_reads")]
+             [("QuartzModel.Theorems.C09Lin", "Sched.C09_lock_facts"), ("QuartzModel.Theorems.C09Lin", "Sched.C09_unlocked_are_reads"),
+              ("QuartzModel.Theorems.MissingLocks", "Facts.missing_none_locks")]
 
 THEOREMS = {
-    "C05": [("QuartzModel.Theorems.Facts", "Facts.missing_none")] + [("QuartzModel.Theorems.C05", "Wakeup." + t) for t in [
+    "C05": [("QuartzModel.Theorems.MissingWakeup", "Facts.missing_none_wakeup")] + [("QuartzModel.Theorems.C05", "Wakeup." + t) for t in [
         "C05_facts_wf", "C05_invariant", "C05_parked_correct", "C05_never_lost", "C05_token_rereads", "C05_send_never_blocks", "C05_holds",
         "C05_lost_unbuffered", "C05_lost_without_send", "C05_lost_send_before", "C05_lost_without_reread", "C05_blocking_send_deadlocks"]] +
            [("QuartzModel.Proofs.WakeupLemmas", "Wakeup.inv_step"), ("QuartzModel.Proofs.WakeupLemmas", "Wakeup.inv_run")],
-    "C15": [("QuartzModel.Theorems.Facts", "Facts.missing_none")] + [("QuartzModel.Theorems.C15", "Faults." + t) for t in [
+    "C15": [("QuartzModel.Theorems.MissingFaults", "Facts.missing_none_faults")] + [("QuartzModel.Theorems.C15", "Faults." + t) for t in [
         "C15_facts_wf", "C15_facts_api", "C15_facts_dispatch", "C15_backoff_step", "C15_backoff", "C15_holds", "C15_backoff_fails_without_flag",
         "C15_interrupts_postpone_recovery", "C15_api_propagates", "C15_api_nil_only_if_all_ok", "C15_dispatch_after_pop", "C15_one_push_per_pop",
-        "C15_iter_calls", "C15_no_double_fire", "C15_deadline_not_postponed", "C15_recovers"]] +
-           [("QuartzModel.Proofs.FaultsLemmas", "Faults.no_tick_before"), ("QuartzModel.Proofs.FaultsLemmas", "Faults.runQ_nodup")],
-    "C16": [("QuartzModel.Theorems.Facts", "Facts.missing_none")] + [("QuartzModel.Theorems.C16", "Jobs." + t) for t in [
+        "C15_iter_calls", "C15_no_double_fire", "C15_deadline_not_postponed", "C15_recovers",
+        "C15_no_spin_on_spurious_empty", "C15_spurious_empty_spins_unrepaired"]] +
+           [("QuartzModel.Proofs.FaultsLemmas", "Faults.no_tick_before"), ("QuartzModel.Proofs.FaultsLemmas", "Faults.runQ_nodup"),
+            ("QuartzModel.Proofs.FaultsLemmas", "Faults.iter_spurious")],
+    "C16": [("QuartzModel.Theorems.MissingJobs", "Facts.missing_none_jobs")] + [("QuartzModel.Theorems.C16", "Jobs." + t) for t in [
         "C16_facts_tests", "C16_facts_function", "C16_facts_shell", "C16_facts_curl", "C16_facts_accessors",
         "C16_function_status_iff", "C16_shell_status_iff", "C16_status_total", "C16_shell_status_exit", "C16_curl_status_iff",
         "C16_curl_status_failure_iff", "C16_status_iff_code", "C16_function_fields", "C16_shell_fields", "C16_curl_fields",
         "C16_last_execution", "C16_store_order", "C16_serialised", "C16_last_execution_function", "C16_last_execution_shell",
         "C16_last_execution_curl", "C16_fields_mix_without_lock", "C16_callback_once", "C16_open_bodies_le_one",
         "C16_open_bodies_le_one_concurrent", "C16_leak_without_close", "C16_leak_unbounded"]],
-    "C18": [("QuartzModel.Theorems.Facts", "Facts.missing_none")] + [("QuartzModel.Theorems.C18", "Logger." + t) for t in [
+    "C18": [("QuartzModel.Theorems.MissingLogger", "Facts.missing_none_logger")] + [("QuartzModel.Theorems.C18", "Logger." + t) for t in [
         "C18_facts", "C18_facts_output", "C18_facts_slog", "C18_filter", "C18_filter_line", "C18_off_silences_all", "C18_trace_emits_all",
         "C18_level_order", "C18_format", "C18_format_indexed", "C18_format_shapes", "C18_output_line", "C18_label", "C18_complete",
         "C18_mutex", "C18_label_race", "C18_label_race_locked", "C18_noop", "C18_slog_level_map", "C18_slog_attrs"]],
